@@ -795,6 +795,9 @@ def step (line impl : String) : String × Verdict :=
       (out, check (impl == out) "lookup by scale is not the first unit (in iteration order) with that scale")
     | _, _ => bad
   | [op, l, r, o, i, a, j, b] =>
+    -- `x ⊗ x` of a square / self-quotient with the very same operand: the harness adds a fifth form in which
+    -- both borrowed operands are ONE object (`&x * &x`)
+    let sameRef : Bool := l == r && i == j && a == b
     match W.find l, W.find r, W.find o, i.toNat?, C.parse a, j.toNat?, C.parse b with
     | some TL, some TR, some TO, some i, some a, some j, some b =>
       if op == "dmd" || op == "ddm" then
@@ -850,10 +853,10 @@ def step (line impl : String) : String × Verdict :=
       let res := if isMul then dmul R (TL.qt R) (TR.qt R) (TO.qt R) x y
                  else ddiv R (TL.qt R) (TR.qt R) (TO.qt R) x y
       let one := resStr (qStr C) res
-      let out := one ++ "|" ++ one ++ "|" ++ one ++ "|" ++ one
+      let out := one ++ "|" ++ one ++ "|" ++ one ++ "|" ++ one ++ (if sameRef then "|" ++ one else "")
       let forms := impl.splitOn "|"
       let v : Verdict :=
-        if forms.length != 4 then .skip "unparsed impl output"
+        if forms.length != (if sameRef then 5 else 4) then .skip "unparsed impl output"
         else if !(forms.all (· == forms.head!)) then .fail "owned/borrowed operand forms give different results"
         else match parseQ C forms.head! with
           | none => if impl.startsWith "panic:" then .skip "panic" else .skip "unparsed impl output"
